@@ -391,6 +391,13 @@ def greedy_template(rng):
         greedy = op != "" and rng.random() < 0.6
         sep = "comma" if op in ("*", "+") and rng.random() < 0.15 else None
         elems.append((t, op, greedy, sep))
+    if rng.random() < 0.15:
+        # the same symbol repeated greedily with and without a separator (helpers named per
+        # symbol, multiplicity *and* separator)
+        op = rng.choice(["+", "+", "*"])
+        elems = [("a", op, True, None), ("b", "", False, None), ("a", op, True, "comma")]
+        if rng.random() < 0.5:
+            elems.reverse()
     return elems
 
 
